@@ -330,6 +330,9 @@ func RewritePacket(codec string, data []byte, setMarker bool, seqno uint16, delt
 	}
 
 	if (data[0] & 0x10) != 0 {
+		if len(data) < offset+4 {
+			return errTruncated
+		}
 		length := uint16(data[offset+2])<<8 | uint16(data[offset+3])
 		offset += 4 + int(length)*4
 		if len(data) < offset+4 {
